@@ -290,6 +290,35 @@ snapshots are set aside (stated only where the operands are complete and the dep
 def c18Eval : PropEval := fun i pre post =>
   match i, post with
   | .graph o, some post =>
+    -- predecessor / successor / neighbour queries against the plain edge SET of the top graph
+    let setQuery : Option String :=
+      if o == .nodePredecessors || o == .nodeSuccessors || o == .nodeNeighbors then
+        match graphAt pre 0, pre.ivec, pre.int with
+        | some g, states :: ivl, id :: _ =>
+          if id > 0 then
+            let n := id.toInt.toNat
+            let E : List (Nat × Nat) := g.edges.flatMap fun (d, l) => l.map fun e => (e.origin, d)
+            let ok (x : Nat) : Bool := match g.getState x with
+              | some st => states.isEmpty || states.contains st
+              | none => false
+            let preds := (E.filter fun (o', d) => d == n && ok o').map (·.1)
+            let succs := (E.filter fun (o', d) => o' == n && ok d).map (·.2)
+            let want := match o with
+              | .nodePredecessors => preds
+              | .nodeSuccessors => succs
+              | _ => preds ++ succs
+            let norm (l : List Nat) : List Nat := (l.mergeSort (· ≤ ·)).eraseDups
+            (match post.ivec with
+             | got :: rest =>
+               if rest.length == ivl.length && norm (got.map fun x => x.toInt.toNat) == norm want then none
+               else some ("the query must return exactly the node set of the edge-set model: " ++ toString (norm want))
+             | [] => some "the query pushed no result")
+          else none
+        | _, _, _ => none
+      else none
+    match setQuery with
+    | some why => some why
+    | none =>
     let plain : Option GraphOp := match o with
       | .edgeHistory => if pre.int.length ≥ 3 then some .edgeGetWeight else none
       | .nodeHistory => if pre.int.length ≥ 2 then some .nodeGetState else none
@@ -302,6 +331,33 @@ def c18Eval : PropEval := fun i pre post =>
          let want := { semGraph q below with graph := pre.graph }
          if encState (canon i pre post) == encState (canon i pre want) then none
          else some ("a history query at depth " ++ toString pos ++ " must read the snapshot at that depth: " ++ encState want)
+       else none
+     | _, _ => none)
+  | _, _ => none
+
+/-- C20: LIST.NEIGHBOR*IDS returns exactly the indices within the (clamped) Euclidean radius on the smallest
+enclosing hypercube, in ascending order, the centre included -/
+def c20Eval : PropEval := fun i pre post =>
+  match i, post with
+  | .list .nbIds, some post =>
+    (match pre.int, pre.float with
+     | size :: index :: dims :: _, r :: _ =>
+       let sz := (max size.toInt 0).toNat
+       let ix := (max (min (size.toInt - 1) index.toInt) 0).toNat
+       let nd := (max (min size.toInt dims.toInt) 0).toNat
+       -- `f32::max(radius, 0.0)`: a negative or NaN radius counts as 0
+       let rad : Float32 := if r > 0 then r else 0
+       if sz ≥ 1 && nd ≥ 1 && sz ≤ 5000 then
+         let e := Topo.ceilRoot sz nd
+         if e ^ (nd - 1) < 18446744073709551616 then
+           let c := Topo.digits ix e nd
+           let want := (List.range sz).filter fun j => Topo.withinF rad (Topo.dist2 c (Topo.digits j e nd))
+           (match post.ivec with
+            | got :: _ =>
+              if post.ivec.length == pre.ivec.length + 1 && got == want.map lenI32 then none
+              else some ("the neighbourhood must be the indices within the radius around the centre on the smallest hypercube (edge " ++ toString e ++ "): " ++ toString want)
+            | [] => some "no neighbourhood was pushed")
+         else none
        else none
      | _, _ => none)
   | _, _ => none
@@ -340,7 +396,7 @@ def c15Eval : PropEval := fun i pre post =>
 
 def propEvals : List (String × PropEval) :=
   [("C01", panicFree), ("C04", c04Eval), ("C05", c05Eval), ("C06", c06Eval), ("C07", c07Eval), ("C08", c08Eval),
-   ("C09", c09Eval), ("C19", c19Eval), ("C15", c15Eval), ("C10", c10Eval), ("C18", c18Eval)]
+   ("C09", c09Eval), ("C19", c19Eval), ("C15", c15Eval), ("C10", c10Eval), ("C18", c18Eval), ("C20", c20Eval)]
 
 /-- instruction names in the scope of a property's single-instruction scenario -/
 def scopeOf (pid : String) : List Instr :=
